@@ -124,6 +124,7 @@ pub trait Read: Sized {
 //@@ end
 
 //@@ fn file=serde_amqp/src/read/mod.rs impl=`~Read<'de>:private::Sealed` name=read_bytes
+//@@ shape loops=while
 //@@ attr #[verifier::exec_allows_no_decreases_clause]
 //@@ qmark
 //@@ subst `vec![0u8; n]` => `alloc_zeroed_vec(n, Ghost(self.unread().len()))` rule=optional-R9
